@@ -147,6 +147,7 @@ class MILSTD1553DataPacket(object):
         self.ttb = (ch_spec_word >> 30) & 0x3
 
         offset = 4
+        self.messages = []
         while offset + 14 < len(mybuffer):  # Should have at least the timestamp
             m = MILSTD1553Message(self._ipts_source)
             offset += m.unpack(mybuffer[offset:])
